@@ -21,8 +21,8 @@ var c17Exceptions = map[string]string{
 
 func runC17(c *Ctx, tier string) {
 	r := NewReport("C17", "other", tier, c)
-	r.Explanation = "A status can depend on the order of subjectAltName entries or of extensions only through a loop over them (or positional indexing). (1) single-verdict: every outermost loop in code reachable from a lint whose iterated collection derives from the certificate's SAN lists (DNSNames, EmailAddresses, URIs, IPAddresses, OtherNames, DirectoryNames, RegisteredIDs, EDIPartyNames, GetParsedDNSNames(), the re-parsed SAN extension value) or from Extensions is examined: the set of verdicts reachable through its early exits (statuses of results returned from inside the loop — helpers included, by status-flow analysis — plus 'break') must have at most one element, otherwise which entry comes first decides the outcome; the unique-selector idiom over Extensions (every early exit dominated by ext.Id.Equal(<loop-invariant OID>), at most one extension can match when none is duplicated — the property's premise) is exempt; (2) no-last-wins: a loop-carried status/result variable may be assigned at most one status inside such a loop; (3) by-oid: util.GetExtFromCert looks the extension up in ExtensionsMap by OID string, and no code in scope indexes Extensions (or a SAN list) with a constant. Eight loops in eight DNS-name lints violate (1) on the pinned tree (NA at the first unparseable name vs. a finding at the first offending one) and are listed as known findings. Loops over other lists (AIA URLs, RDNs, revoked certificates, IAN names, policies) are outside the property. Does not decide order dependence through arithmetic on positions, through helper results that are not statuses, or inside library calls."
-	r.Rule("single-verdict; no-last-wins; by-oid; no-positional-index")
+	r.Explanation = "A status can depend on the order of subjectAltName entries or of extensions only through a loop over them (or positional indexing). (1) single-verdict: every outermost loop in code reachable from a lint whose iterated collection derives from the certificate's SAN lists (DNSNames, EmailAddresses, URIs, IPAddresses, OtherNames, DirectoryNames, RegisteredIDs, EDIPartyNames, GetParsedDNSNames(), the re-parsed SAN extension value) or from Extensions is examined: the set of verdicts reachable through its early exits (statuses of results returned from inside the loop — helpers included, by status-flow analysis — plus 'break') must have at most one element, otherwise which entry comes first decides the outcome; the unique-selector idiom over Extensions (every early exit dominated by ext.Id.Equal(<loop-invariant OID>), at most one extension can match when none is duplicated — the property's premise) is exempt; (2) no-last-wins: a loop-carried status/result variable may be assigned at most one status inside such a loop; (2b) carried-state: in such a loop no early exit (return or break) may be controlled by a condition that reads a variable carried over from earlier iterations (other than the index / the consumed slice), no early exit may return such a variable, and the early exits of a helper have at most one constant outcome — otherwise what happens at one entry depends on which entries came before it; (3) by-oid: util.GetExtFromCert looks the extension up in ExtensionsMap by OID string, and no code in scope indexes Extensions (or a SAN list) with a constant. Eight loops in eight DNS-name lints violate (1) on the pinned tree (NA at the first unparseable name vs. a finding at the first offending one) and are listed as known findings. Loops over other lists (AIA URLs, RDNs, revoked certificates, IAN names, policies) are outside the property. Does not decide order dependence through arithmetic on positions, through accumulated values used only after the loop (e.g. first-match captured then judged), or inside library calls."
+	r.Rule("single-verdict; no-last-wins; carried-state; by-oid; no-positional-index")
 	r.Trusted = []string{"go/ssa", "status-flow analysis (E2)", "zcrypto fills ExtensionsMap for every extension"}
 
 	cs := BuildCensus(c)
@@ -130,6 +130,7 @@ func runC17(c *Ctx, tier string) {
 			if len(r.Samples) < 6 && len(exits) > 0 {
 				r.Sample(map[string]interface{}{"loop": id, "at": c.Pos(pos), "early_exit_verdicts": vs, "iterates": iter})
 			}
+			c17Carried(c, r, f, l, id, inScope, exits)
 			// last-wins
 			for _, in := range l.header.Instrs {
 				phi, ok := in.(*ssa.Phi)
@@ -337,3 +338,148 @@ func collectAssigned(sf *StatusFlow, f *ssa.Function, l *natLoop, v ssa.Value, s
 }
 
 var _ = types.Typ
+
+// valueDependsOn: v is computed (inside the loop) from target through
+// arithmetic, comparisons, conversions, phis and call arguments.
+func valueDependsOn(l *natLoop, v, target ssa.Value, seen map[ssa.Value]bool, d int) bool {
+	if v == target {
+		return true
+	}
+	if d > 8 || seen[v] {
+		return false
+	}
+	seen[v] = true
+	in, ok := v.(ssa.Instruction)
+	if !ok || in.Block() == nil || !l.blocks[in.Block()] {
+		return false
+	}
+	for _, op := range in.Operands(nil) {
+		if *op != nil && valueDependsOn(l, *op, target, seen, d+1) {
+			return true
+		}
+	}
+	return false
+}
+
+// c17Carried: order dependence through loop-carried state.
+func c17Carried(c *Ctx, r *Report, f *ssa.Function, l *natLoop, id, inScope string, exits []loopExit) {
+	var carried []*ssa.Phi
+	bad := 0
+	for _, in := range l.header.Instrs {
+		phi, ok := in.(*ssa.Phi)
+		if !ok {
+			break
+		}
+		// the iteration index / consumed slice is not state
+		isIdx := false
+		for i, e := range phi.Edges {
+			if l.blocks[l.header.Preds[i]] {
+				if lo, hi, ok := offsetRange(l, phi, e, map[ssa.Value]bool{}); ok && lo >= 1 && hi >= 1 {
+					isIdx = true
+				}
+				if strictSub(l, phi, e, map[ssa.Value]bool{}) {
+					isIdx = true
+				}
+			}
+		}
+		if !isIdx {
+			carried = append(carried, phi)
+		}
+	}
+	for _, p := range carried {
+		name := p.Comment
+		if name == "" {
+			name = p.Name()
+		}
+		// (a) an early exit taken under a condition that reads the carried variable
+		for b := range l.blocks {
+			iff, ok := b.Instrs[len(b.Instrs)-1].(*ssa.If)
+			if !ok || !valueDependsOn(l, iff.Cond, p, map[ssa.Value]bool{}, 0) {
+				continue
+			}
+			if thresholdOnCounter(l, p, iff) {
+				continue // "more than k matching entries": symmetric in the entries
+			}
+			for _, ex := range exits {
+				if b == ex.from || b.Dominates(ex.from) {
+					bad++
+					r.Bad("carried-state", id+"|guard|"+name+"|"+ex.kind, iff.Cond.Pos(), fmt.Sprintf("inside the loop over %s an early exit (%s) is taken under a condition that reads %s, a variable carried over from earlier entries: whether the exit happens depends on which entries came before (re-ordering the entries changes the status)", inScope, ex.kind, name))
+				}
+			}
+		}
+		// (b) an early exit that hands out the carried variable
+		for _, ex := range exits {
+			for _, ret := range ex.rets {
+				for _, rv := range retVals(ret) {
+					if valueDependsOn(l, rv, p, map[ssa.Value]bool{}, 0) || rv == ssa.Value(p) {
+						bad++
+						r.Bad("carried-state", id+"|exit-hands-out|"+name, ret.Pos(), fmt.Sprintf("the loop over %s returns from inside the loop with %s, which was accumulated from earlier entries: entries after the exit point are not seen, so the result depends on the order", inScope, name))
+					}
+				}
+			}
+		}
+	}
+	// (c) helpers with more than one constant outcome among the early exits
+	sigs := map[string]bool{}
+	for _, ex := range exits {
+		for _, ret := range ex.rets {
+			var parts []string
+			for _, rv := range retVals(ret) {
+				if k, ok := rv.(*ssa.Const); ok {
+					if k.Value == nil {
+						parts = append(parts, "nil")
+					} else {
+						parts = append(parts, k.Value.ExactString())
+					}
+				} else {
+					parts = append(parts, "dyn")
+				}
+			}
+			sigs[strings.Join(parts, ",")] = true
+		}
+	}
+	if len(sigs) > 1 {
+		var ss []string
+		for k := range sigs {
+			ss = append(ss, k)
+		}
+		sort.Strings(ss)
+		bad++
+		r.Bad("carried-state", id+"|outcomes|"+strings.Join(ss, "+"), l.header.Instrs[0].Pos(), fmt.Sprintf("the loop over %s can be left early with different constant results %v: which entry comes first decides", inScope, ss))
+	}
+	if bad == 0 {
+		r.OK("carried-state", id, l.header.Instrs[0].Pos(), len(carried) > 0, fmt.Sprintf("%d loop-carried variables, none read by an early-exit condition or handed out by an early exit; early exits have one constant outcome", len(carried)))
+	}
+}
+
+// thresholdOnCounter: p is an integer counter that never decreases inside the
+// loop, and the condition compares it (or it plus a constant) with a constant
+// by > / >= / < / <= / == / != and with nothing else — the exit then depends on
+// how many entries matched so far, which no re-ordering changes in the end.
+func thresholdOnCounter(l *natLoop, p *ssa.Phi, iff *ssa.If) bool {
+	if b, ok := p.Type().Underlying().(*types.Basic); !ok || b.Info()&types.IsInteger == 0 {
+		return false
+	}
+	for i, e := range p.Edges {
+		if !l.blocks[l.header.Preds[i]] {
+			continue
+		}
+		lo, _, ok := offsetRange(l, p, e, map[ssa.Value]bool{})
+		if !ok || lo < 0 {
+			return false
+		}
+	}
+	cmp, ok := iff.Cond.(*ssa.BinOp)
+	if !ok {
+		return false
+	}
+	side := func(v ssa.Value) bool {
+		if v == ssa.Value(p) {
+			return true
+		}
+		_, _, ok := offsetRange(l, p, v, map[ssa.Value]bool{})
+		return ok
+	}
+	isK := func(v ssa.Value) bool { _, ok := v.(*ssa.Const); return ok }
+	return (side(cmp.X) && isK(cmp.Y)) || (side(cmp.Y) && isK(cmp.X))
+}
